@@ -10,6 +10,7 @@ CONSTANTS
  MolIdx <- MCMolTwo
  MsgKinds <- MCMsgAll
  MaxMsgs = 3
+ WithEnv = FALSE
  HDev = "errGate"
 INVARIANT ReadIsCurrent
 CHECK_DEADLOCK FALSE
